@@ -95,3 +95,80 @@ def run_case(res, case, attempt=0):
         res.violation('not-idle-closed-after-peer-close:pipeline', 'C12.final-state',
                       '%s: provider thread still alive 10 s after the peer closed and the application '
                       'returned' % where, case)
+
+
+TITLES = [b'K\xc3\x96LN', b'\xe6\x97\xa5\xe6\x9c\xac', b'CAF\xc3\x89-SCU', b'\xf0\x9f\x98\x80A']
+
+
+def run_title_case(res, case, attempt=0):
+    """An A-ASSOCIATE-RQ whose AE titles are well-formed UTF-8 (not ASCII) reaches a real accepting
+    entity, which repeats them in its reply: whatever the answer is (accept, reject, abort), there
+    is one, and the connection is not left to rot."""
+    from pynetdicom2 import applicationentity, sopclass
+    from . import fixtures as F
+    k, seed = case['index'], case['seed']
+    title = TITLES[k % len(TITLES)]
+    if not attempt:
+        res.evaluations += 1
+    res.distinct.add('utf8-title|%d' % (k % len(TITLES)))
+    where = 'A-ASSOCIATE-RQ with the AE title %r sent to an accepting entity' % title
+    case = dict(case, pipeline=True, title=True)
+
+    class Server(tcpnet.TapServerMixin, applicationentity.AE):
+        pass
+    net = tcpnet.Net(seed=seed * 11 + k)
+    reply = None
+    error = None
+    died = []
+    old_hook = threading.excepthook
+
+    def hook(args):
+        # an exception that ends a provider thread (the library's last resort re-raises it)
+        if 'DULServiceProvider' in type(args.thread).__name__:
+            died.append('%s: %s' % (args.exc_type.__name__, args.exc_value))
+    threading.excepthook = hook
+    try:
+        reply, error, quiet = _title_exchange(net, Server, sopclass, F, title, k)
+    finally:
+        threading.excepthook = old_hook
+    if tcpnet.is_timeout(error) and attempt < 2:
+        res.count('flaky-timeouts')
+        return run_title_case(res, case, attempt + 1)
+    res.count('oracle.non-ascii-title-answered')
+    if died:
+        res.violation('loop-died:' + died[0].split(':')[0], 'C12.no-crash',
+                      '%s: the provider thread ended with %s' % (where, died[0]), case)
+    if error is not None or reply is None:
+        res.violation('request-with-non-ascii-title-not-answered', 'C12.no-crash',
+                      '%s: no A-ASSOCIATE-AC / RJ / A-ABORT and no close within 10 s (%s)' % (where, error), case)
+    elif not quiet:
+        res.violation('not-idle-closed-after-peer-close:non-ascii-title', 'C12.final-state',
+                      '%s: answered with %r but the provider thread is still alive 10 s after the peer closed' % (
+                          where, reply), case)
+
+
+def _title_exchange(net, Server, sopclass, F, title, k):
+    reply = error = None
+    with tcpnet.instrument(net):
+        server = Server('ANY-SCP', 0)
+        server.net = net
+        server.timeout = 5
+        server.add_scp(sopclass.verification_scp)
+        with tcpnet.serving(server):
+            try:
+                peer = tcpnet.RefPeer.connect(server.port, timeout=10.0)
+                try:
+                    peer.send_pdu(F.assoc_rq_tree(called=title if k % 2 else b'ANY-SCP',
+                                                  calling=title if k % 2 == 0 else b'ASCII-SCU'))
+                    try:
+                        reply = peer.recv_pdu()['type']
+                        if reply == 2:
+                            peer.release()
+                    except tcpnet.PeerClosed:
+                        reply = 'closed'
+                finally:
+                    peer.close()
+            except Exception as exc:
+                error = exc
+            quiet = tcpnet.wait_quiet(0, 10.0)
+    return reply, error, quiet
